@@ -27,6 +27,7 @@ Fails(e) ==
       [] e.op = "maxrt" -> MaxRtFails(e)
       [] e.op = "rta" -> RtaFails(e)
       [] e.op = "agree" -> AgreeFails(e)
+      [] e.op = "agree_max" -> AgreeMaxFails(e)
       [] e.op = "cost_trace" -> CostTraceFails(e)
       [] e.op = "cost_ext" -> CostExtFails(e)
       [] OTHER -> {"unknown_op"}
